@@ -264,3 +264,5 @@ def check(model, rep, tier):
     formula_clause(model, rep, funcs)
     guard_clause(model, rep, funcs)
     sibling_clause(model, rep, funcs)
+    from .generic import axis_convention_obligations
+    axis_convention_obligations(model, rep, ["acryo/backend/_bandpass.py", "acryo/_utils.py"], "2 layout", floor=3)
